@@ -88,6 +88,36 @@ func (l *Layout) w(s string) {
 	}
 }
 
+func lastLine(s string) string {
+	if i := strings.LastIndexByte(s, '\n'); i >= 0 {
+		return s[i+1:]
+	}
+	return s
+}
+
+// expr writes a condition expression; the end of each of its inner lines may carry trailing blanks and a
+// trailing comment (the pre-pass cuts both, so the expression read back is the one written), unless the
+// line itself contains " #".
+func (l *Layout) expr(s string) {
+	for {
+		i := strings.IndexByte(s, '\n')
+		if i < 0 {
+			l.cur.WriteString(s)
+			return
+		}
+		l.cur.WriteString(s[:i])
+		if s[:i] != "" {
+			l.trail(!strings.Contains(s[:i], " #"), false)
+		}
+		if l.CRLF {
+			l.cur.WriteString("\x00") // keep a bare LF inside the expression (see String)
+		}
+		l.lines = append(l.lines, l.cur.String())
+		l.cur.Reset()
+		s = s[i+1:]
+	}
+}
+
 // ws: mandatory WHITESPACE token
 func (l *Layout) ws() {
 	if l.rng == nil || !l.Extra || !l.coin(3) {
@@ -364,8 +394,11 @@ func (l *Layout) condition(c Cond) {
 	} else {
 		l.ows(true)
 	}
-	l.w(c.Expr)
+	l.expr(c.Expr)
 	if l.rng == nil || !l.coin(6) {
+		// the last line of the body may carry a trailing comment; comment *lines* are not put inside a
+		// body (they would become blank lines of the expression)
+		l.trail(!strings.Contains(lastLine(c.Expr), " #"), false)
 		l.nl(0, false)
 	}
 	l.w("}")
